@@ -7,7 +7,7 @@ Route table: two applications x two command codes, one code shared across the ap
 handlers sharing one __name__.
 """
 from pyvc.api import contract, T
-from pyvc.spec import implies, unbe, be, ghost_get, is_instance_of
+from pyvc.spec import implies, unbe, be, ghost_get, ghost_set, is_instance_of
 import bromelia.base as B
 import bromelia.bromelia as BB
 from bromelia.exceptions import BromeliaException
@@ -305,3 +305,58 @@ class _GetCallback:
 
     def ensures_the_registered_one(request, result):
         return result.tag == expected_tag(request)
+
+
+# ------------------------------------------------------------------ fetching the next request from the workers' queues
+def _recv_pairs(n):
+    # every connection worker's inbound queue: empty, or a known head followed by an unknown number of further
+    # requests; its lock free
+    q = lambda: T.OneOf(T.Sync("queue"), T.Sync("queue", items=[_request()], extra=True))      # noqa: E731
+    return T.ListOf(*[T.ListOf(q(), T.Sync("lock")) for _ in range(n)])
+
+
+def snap_queues(self):
+    return ghost_set("rq0", [list(p[0].st["items"]) for p in self.recv_queues])
+
+
+def _incoming_contract(n):
+    @contract("bromelia.bromelia.Bromelia.get_incoming_message", prop="C13", name="%d-queues" % n)
+    class _Incoming:
+        """one call takes AT MOST ONE request, the head of one worker's queue, and returns it: no request is
+        taken from a queue without being returned (it would never reach its handler nor get an answer); with
+        every queue empty nothing is returned and nothing changes; all locks are free afterwards"""
+        args = {"self": T.Obj(BB.Bromelia, idict={"recv_queues": _recv_pairs(n)})}
+        snapshot_spec = snap_queues
+        bounded = "%d connection workers (queues: empty or a known head + unknown tail)" % n
+
+        def ensures_at_most_one_taken_and_it_is_returned(self, result):
+            q0 = ghost_get("rq0")
+            taken = 0
+            ok = True
+            for i in range(len(q0)):
+                now = self.recv_queues[i][0].st["items"]
+                if len(now) != len(q0[i]):
+                    taken = taken + 1
+                    ok = ok and len(q0[i]) >= 1 and len(now) == len(q0[i]) - 1 and result is q0[i][0]
+            return ok and taken <= 1 and (taken == 1) == (result is not None)
+
+        def ensures_something_queued_is_returned(self, result):
+            q0 = ghost_get("rq0")
+            some = False
+            for items in q0:
+                some = some or len(items) > 0
+            return implies(some, result is not None)
+
+        def ensures_locks_free(self):
+            ok = True
+            for p in self.recv_queues:
+                ok = ok and p[1].st["held"] == False
+            return ok
+
+        def exceptional(exc):
+            return False
+    return _Incoming
+
+
+for _n in (1, 2, 3):
+    _incoming_contract(_n)
